@@ -6443,6 +6443,13 @@ size_t ZSTD_compressStream2( ZSTD_CCtx* cctx,
             flushMin = ZSTDMT_compressStream_generic(cctx->mtctx, output, input, endOp);
             cctx->consumedSrcSize += (U64)(input->pos - ipos);
             cctx->producedCSize += (U64)(output->pos - opos);
+            if (cctx->pledgedSrcSizePlusOne != 0 && !ZSTD_isError(flushMin)) {
+                /* control src size : a frame made of several jobs is not controlled by any of them */
+                int const tooMuch = (cctx->consumedSrcSize+1 > cctx->pledgedSrcSizePlusOne);
+                int const tooFew = (endOp == ZSTD_e_end) && (flushMin == 0)
+                                && (cctx->consumedSrcSize+1 != cctx->pledgedSrcSizePlusOne);
+                if (tooMuch || tooFew) flushMin = ERROR(srcSize_wrong);
+            }
             if ( ZSTD_isError(flushMin)
               || (endOp == ZSTD_e_end && flushMin == 0) ) { /* compression completed */
                 if (flushMin == 0)
